@@ -1299,8 +1299,8 @@ TIERS = {
     # other_hosts: (histories, chains, workers) for each of the other host interpreters, run concurrently
     "quick": {"histories": 1000, "chains": 40, "produce": (2, 2), "wall_cap": 110, "shard": 10,
               "other_hosts": (90, 3, 3)},
-    "thorough": {"histories": 30000, "chains": 1200, "produce": (10, 12), "wall_cap": 3000, "shard": 20,
-                 "other_hosts": (4000, 160, 3)},
+    "thorough": {"histories": 20000, "chains": 800, "produce": (10, 12), "wall_cap": 2400, "shard": 20,
+                 "other_hosts": (2000, 80, 3)},
 }
 
 
